@@ -1628,6 +1628,22 @@ func checkN14(c *Ctx, pr *prioRoles, rule string) {
 			_, path, okp := p.upParam(list, 0).FieldPath()
 			c.R.Check(okp && path[len(path)-1] == "priorities", rule, fmt.Sprintf("%s#pass-list.%d", p.FnKey(fn), n), p.Pos(fn.Pos()), "the spending phase visits the registered priorities",
 				"the spending phase visits "+list.String()+", not the list of registered priorities: inputs of the priorities outside that list are not read in this phase although they were allotted handlers")
+			// ... all of them: the pass is left only by its own bound test (a `break` where the
+			// drained input is skipped ends the pass at the first closed input: the priorities
+			// after it are never read again)
+			var early []string
+			for _, b := range comp {
+				if boundedHeader(b, set) {
+					continue
+				}
+				for _, sb := range b.Succs {
+					if !set[sb] {
+						early = append(early, p.InstrPos(b.Instrs[len(b.Instrs)-1]))
+					}
+				}
+			}
+			c.R.Check(len(early) == 0, rule, fmt.Sprintf("%s#pass-complete.%d", p.FnKey(fn), n), p.Pos(fn.Pos()), "the pass is left only at the end of the list",
+				"the pass over the registered priorities is left early at "+strings.Join(dedup(early), ", ")+": the priorities after that point are not read in this round (for a closed input: never again)")
 		}
 	}
 	if n == 0 {
@@ -1853,6 +1869,60 @@ func checkN78(c *Ctx, pr *prioRoles) {
 		}
 	}
 	// N8: appends to `useful`
+	usedUpFns := map[*ssa.Function]bool{}
+	defer func() {
+		// the "used up its allotment" filter looks at what the spending pass left of the round's
+		// allotment: where it is evaluated, nothing in the same function has emptied or rewritten
+		// the allotment map before it (evaluated after the reset, every priority looks used up
+		// and the hypothetical shares are computed among all of them)
+		ai := p.alias()
+		var fl []*ssa.Function
+		for f := range usedUpFns {
+			fl = append(fl, f)
+		}
+		sort.Slice(fl, func(i, j int) bool { return p.FnKey(fl[i]) < p.FnKey(fl[j]) })
+		for _, f := range fl {
+			for k, sa := range p.CallSitesX(f) {
+				site, ok := sa.Call.(ssa.Instruction)
+				if !ok {
+					continue
+				}
+				g := site.Parent()
+				var before []string
+				for _, b := range g.Blocks {
+					for _, in := range b.Instrs {
+						if in == site || !instrReachableFrom(in, site) {
+							continue
+						}
+						writes := false
+						if w, ok := p.mapWriteOf(nil, in); ok && w.Field == "tactic" {
+							writes = true
+						}
+						if call, ok := in.(*ssa.Call); ok {
+							if cal := p.Callee(call); cal != nil && p.IsProduct(cal) && cal != f && p.mayWriteMapField(cal, "tactic") {
+								writes = true
+							}
+						}
+						if writes {
+							before = append(before, p.InstrPos(in))
+						}
+					}
+				}
+				for _, w := range ai.contentWritesIn(g) {
+					if w.In == site || !instrReachableFrom(w.In, site) {
+						continue
+					}
+					for _, root := range ai.Roots(w.Target) {
+						if root.Kind == "fieldload" && strings.HasSuffix(root.Path, ".tactic") {
+							before = append(before, p.InstrPos(w.In))
+						}
+					}
+				}
+				c.R.Check(len(before) == 0, "N8", fmt.Sprintf("%s#used-up-measured.%d", p.FnKey(g), k+1), p.InstrPos(site), "the used-up filter sees the allotment as the spending pass left it",
+					"the candidates that \"used up their allotment\" are selected after the allotment map was rewritten at "+strings.Join(dedup(before), ", ")+": the filter no longer sees what the spending pass left, every priority looks used up and the unspent handlers are shared among all of them")
+			}
+		}
+	}()
 	n := 0
 	for _, fn := range pr.rt.Funcs {
 		for _, b := range fn.Blocks {
@@ -1918,6 +1988,9 @@ func checkN78(c *Ctx, pr *prioRoles) {
 					default:
 						extra = true
 					}
+				}
+				if form == "allotment used up (tactic == 0)" && !extra {
+					usedUpFns[fn] = true
 				}
 				c.R.Check(form != "" && !extra, "N8", fmt.Sprintf("%s#useful.%d", p.FnKey(fn), n), p.InstrPos(in), form,
 					"the second-phase candidates are selected by "+described+", not by 'used up its allotment' / 'actual < hypothetical share': the unspent handlers go to priorities without data, or a lone active priority is left out")
